@@ -7,6 +7,7 @@ import (
 	"runtime/debug"
 	"sort"
 	"strings"
+	"sync"
 	"sync/atomic"
 	"time"
 
@@ -274,6 +275,7 @@ type c30 struct {
 	r       *ev.Run
 	st      *c30Stats
 	samples *ev.Samples
+	seen    sync.Map // chart JSON -> struct{}: coverage counters count DISTINCT charts
 }
 
 func (c *c30) violation(stage, kind string, ch Chart, extra map[string]any, format string, a ...any) {
@@ -329,6 +331,7 @@ func (c *c30) pure(ch Chart, addrs []string) (*ledger.ChartOfAccounts, []Class) 
 	want := make([]Class, len(addrs))
 	wantG := make([]Class, len(addrs))
 	nAcc, nDef := 0, 0
+	nExist := int64(0)
 	for i, a := range addrs {
 		ref := ch.Classify(a)
 		ca := ImplClass(&A, a)
@@ -350,26 +353,32 @@ func (c *c30) pure(ch Chart, addrs []string) (*ledger.ChartOfAccounts, []Class) 
 			}
 		}
 		if ref.Accepted != ch.AcceptsExistential(a) {
-			st.existentialDiffers.Add(1)
+			nExist++
 		}
 	}
 	st.evals.Add(int64(2 * len(addrs)))
 	st.stages.add("reference", int64(2*len(addrs)))
-	st.accepted.Add(int64(nAcc))
-	st.rejected.Add(int64(len(addrs) - nAcc))
-	st.withDefaults.Add(int64(nDef))
-	if nAcc > 0 && nAcc < len(addrs) {
-		st.nontrivial.Add(1)
+	if _, dup := c.seen.LoadOrStore(j0, struct{}{}); !dup {
+		st.charts.Add(1)
+		st.accepted.Add(int64(nAcc))
+		st.rejected.Add(int64(len(addrs) - nAcc))
+		st.withDefaults.Add(int64(nDef))
+		if nAcc > 0 && nAcc < len(addrs) {
+			st.nontrivial.Add(1)
+		}
+		if strings.Contains(j0, `".pattern"`) {
+			st.patternCharts.Add(1)
+		}
+		if strings.Contains(j0, `".self"`) {
+			st.selfCharts.Add(1)
+		}
+		if strings.Contains(j0, `"default"`) {
+			st.metaCharts.Add(1)
+		}
+	} else {
+		nExist = 0
 	}
-	if strings.Contains(j0, `".pattern"`) {
-		st.patternCharts.Add(1)
-	}
-	if strings.Contains(j0, `".self"`) {
-		st.selfCharts.Add(1)
-	}
-	if strings.Contains(j0, `"default"`) {
-		st.metaCharts.Add(1)
-	}
+	st.existentialDiffers.Add(nExist)
 
 	// JSON marshal -> unmarshal -> marshal
 	for _, form := range []struct {
@@ -394,7 +403,6 @@ func (c *c30) pure(ch Chart, addrs []string) (*ledger.ChartOfAccounts, []Class) 
 		}
 		c.compareChart(form.stage, ch, form.c, w, &C, addrs, map[string]any{"marshalled": string(j1)})
 	}
-	st.charts.Add(1)
 	return &A, want
 }
 
@@ -678,7 +686,7 @@ func runC30() int {
 	cov := ev.Coverage{
 		"evaluations":                  st.evals.Load(),
 		"distinct_nontrivial":          st.nontrivial.Load(),
-		"charts_evaluated":             st.charts.Load(),
+		"distinct_charts_evaluated":    st.charts.Load(),
 		"schemas_through_database":     st.dbSchemas.Load(),
 		"address_classifications":      map[string]int64{"accepted": st.accepted.Load(), "rejected": st.rejected.Load(), "accepted_with_default_metadata": st.withDefaults.Load()},
 		"charts_with_pattern":          st.patternCharts.Load(),
@@ -694,7 +702,7 @@ func runC30() int {
 			"evaluation = one (chart, address, stage) comparison of FindAccountSchema (accepted/rejected + default metadata) over every address of <=4 segments over the token alphabet {bank, users, 007, x7} (spine families: every address of <=3 segments plus every 4-segment address under `bank`; special family: 8 tokens incl. the empty segment); " +
 			"stages: reference matcher vs implementation (JSON form and Go form); JSON marshal->unmarshal->marshal (stable bytes, same classification) of both forms; SchemaData marshal/unmarshal with transaction and query templates; " +
 			"InsertSchema through the real controller on pgsim then GetSchema (same process), GetSchema + ListSchemas + INSERTED_SCHEMA log payload from a freshly attached stack; templates and query templates compared as JSON documents. " +
-			"distinct_nontrivial = charts that accept at least one and reject at least one address of the menu",
+			"distinct_nontrivial = DISTINCT charts (by JSON text, across families) that accept at least one and reject at least one address of their menu",
 	}
 	return r.Finish(cov, []string{pgsimAssumption,
 		"reference matcher semantics: a fixed child takes precedence over the variable sibling and there is no backtracking (deterministic walk, as chart_test.go and the ErrInvalidAccount texts describe); how often this differs from 'some path exists' is reported, not judged",
